@@ -400,7 +400,7 @@ func (ex *Exec) mapUpdate(st *State, site ssa.Instruction, m Value, k Value, v V
 	mv, ok := m.(*MapV)
 	if !ok {
 		if _, isNil := m.(*NilV); isNil {
-			ex.outcome("panic", "assignment to entry in nil map", site, st.pc)
+			ex.panicOutcome(st, "assignment to entry in nil map", site, st.pc)
 			st.kill()
 			return
 		}
@@ -852,7 +852,7 @@ func (ex *Exec) chanRecv(st *State, site ssa.Instruction, c Value, commaOk bool,
 func (ex *Exec) chanClose(st *State, site ssa.Instruction, c Value) {
 	cv, ok := c.(*ChanV)
 	if !ok {
-		ex.outcome("panic", "close of nil channel", site, st.pc)
+		ex.panicOutcome(st, "close of nil channel", site, st.pc)
 		st.kill()
 		return
 	}
@@ -932,12 +932,17 @@ func (ex *Exec) builtin(st *State, fr *Frame, site ssa.Instruction, b *ssa.Built
 		return nil
 	case "ssa:wrapnilchk":
 		if _, ok := args[0].(*NilV); ok {
-			ex.outcome("panic", "nil receiver in method wrapper", site, st.pc)
+			ex.panicOutcome(st, "nil receiver in method wrapper", site, st.pc)
 			st.kill()
 			return nil
 		}
 		return args[0]
 	case "recover":
+		if ex.recoverVal != nil {
+			v := ex.recoverVal
+			ex.recoverVal = nil
+			return v
+		}
 		return Nil
 	case "copy":
 		dst, ok1 := args[0].(*SliceV)
